@@ -257,6 +257,15 @@ def run_shard(desc, ctx):
         return
     rng = ctx.rng
     for k in range(desc['ndocs']):
+        # a document while it is being typed: cut right after EACH tag (after the open tag of a script / style element nothing is left to skip)
+        for _ in range(6):
+            full, recs = gen_html.gen_doc(rng, xml=(k % 3 == 0), max_depth=3, max_children=3, max_top=2)
+            if len(full) > 400:
+                continue
+            for r in recs:
+                for cut in (r['open'][1], (r['close'] or r['open'])[1]):
+                    mon.check('html', full[:cut], 'html:mutation', rng)
+                    ctx.ev('html:cut-after-tag')
         src, _ = gen_html.gen_doc(rng, xml=(k % 3 == 0), max_depth=2, max_children=2, max_top=1)
         if len(src) > 120:
             src = src[:120]
